@@ -679,6 +679,10 @@ func main() {
 		fmt.Fprintln(os.Stderr, err)
 		os.Exit(1)
 	}
+	if err := os.WriteFile(filepath.Join(*out, "Trans.lean"), []byte(writeTrans(*repo)), 0o644); err != nil {
+		fmt.Fprintln(os.Stderr, err)
+		os.Exit(1)
+	}
 	if *rootsFile != "" {
 		if err := writeClosures(*repo, *out, *rootsFile); err != nil {
 			fmt.Fprintln(os.Stderr, err)
